@@ -156,7 +156,7 @@ def run(ctx, replay):
         ctx.cov["evaluations"] += n
         return
     ctx.specs()
-    nr = 6 if quick else 40
+    nr = 6 if quick else 120
     dump = ctx.path("rnd_cases.jsonl")
     with ThreadPoolExecutor(max_workers=8) as ex:
         # ---- S
@@ -166,9 +166,9 @@ def run(ctx, replay):
         for dev in ("UnsignedToken", "NoTieBreak", "TieBreakLeq"):
             fs.append(ex.submit(ctx.tlc_check, "Paging", "Paging.cfg", overrides={"Deviations": '{"%s"}' % dev}, workers=1, expect_violation="ExactlyOnce"))
         # ---- G: worlds and query grids from TLC
-        g1 = ex.submit(ctx.tlc_gen, "PagingGen", "PagingGen.cfg", tag="WORLD", overrides={"MaxN": 3 if quick else 5})
+        g1 = ex.submit(ctx.tlc_gen, "PagingGen", "PagingGen.cfg", tag="WORLD", overrides={"MaxN": 4 if quick else 5})
         g2 = ex.submit(ctx.tlc_gen, "PagingGen", "PagingGen.cfg", tag="WORLD", overrides={"Mode": '"sim"', "SimMin": 4 if quick else 6},
-                       simulate=(90 if quick else 1500), depth=20, seed=ctx.seed)
+                       simulate=(90 if quick else 6000), depth=20, seed=ctx.seed)
         g3 = ex.submit(ctx.run, [drv, "-random", str(nr), "-seed", str(ctx.seed), "-maxn", "200", "-dump", dump], timeout=300)
         bfs, sim = g1.result(), g2.result()
         g3.result()
@@ -182,7 +182,9 @@ def run(ctx, replay):
         w1, n1, d1, first_trace = f_small.result()
         w2, n2, d2, _ = f_big.result()
         for f in fs:
-            f.result()
+            r = f.result()
+            if r.get("zero_actions"):
+                raise vlib.MachineryError("leg S: actions never taken: %s" % r["zero_actions"])
     for c in cases + rnd:
         ctx.distinct(hashlib.md5(json.dumps([c["n"], c["cls"], c["slots"], c["opts"]], sort_keys=True).encode()).hexdigest())
     ctx.count("G", worlds_exhaustive=len(bfs), worlds_sim=len(sim), replies=n1, around_windows_differing_from_transcription=d1 + d2)
@@ -197,7 +199,7 @@ def run(ctx, replay):
                        "dateCreated in reverse order); exhaustive for n <= %d x 6 time classes (%d worlds), %d simulated worlds n <= 6, %d random worlds up to 200 "
                        "permanodes on 1..21 instants; per world x {live corpus, reloaded corpus} x {created, mod}: paging for every limit 1..n+1 and an around "
                        "query for every pivot x limit; evaluations = page sequences + around windows validated by TLC; distinct = distinct worlds"
-                       % (3 if quick else 5, len(bfs), len(sim), len(rnd)))
+                       % (4 if quick else 5, len(bfs), len(sim), len(rnd)))
     ctx.assumptions += [
         "blobrefs are abstracted to the rank of their text (all sha224); the agreement of Ref.Less with text order is C20",
         "times are (seconds, nanoseconds) pairs read from the world file; created time = dateCreated attribute if set, else modtime (other sources of PermanodeTime - files, EXIF - are not exercised)",
